@@ -59,6 +59,11 @@ func types_errorMethodSig() *types.Signature {
 
 func timeDuration(v int64) time.Duration { return time.Duration(v) }
 
+func parseDuration(s string) (int64, error) {
+	d, err := time.ParseDuration(s)
+	return int64(d), err
+}
+
 func main() {
 	if d := os.Getenv("VERIF_DIR"); d != "" {
 		verifDir = d
